@@ -13,7 +13,13 @@ PROP = dict(
                    "definition of its own, whatever the names look like and in whatever order the parallel scans arrive "
                    "(C14_exact_names_all_defined, C14_injective_key_all_defined); a key under which two different registered names collide - "
                    "e.g. one that forgets the letter case - leaves a component without definition, hence never closed "
-                   "(C14_colliding_key_drops_a_component, C14_case_folded_key_counterexample).",
+                   "(C14_colliding_key_drops_a_component, C14_case_folded_key_counterexample). "
+                   "Eighth round: a start through the package-level entry points runs `append(ops, registerHandlers...)` - whatever options "
+                   "the call of ioc.Run is given (registries of its own included), every component handed to ioc.Register is in the registry of "
+                   "the App it starts (C14_run_keeps_everything_registered, C14_run_registry), while the stored options FIRST let one SetRegistry "
+                   "of the call discard all of them (C14_handlers_first_counterexample); every registered component gets its definition in the "
+                   "tag scan whatever its Go kind (C14_every_kind_defined), a scan that looks at structs only drops the others "
+                   "(C14_struct_only_scan_drops_a_component).",
         level_note="Modelled, not verified: sync.WaitGroup (atomic counter, Wait enabled at 0), goroutine creation; the model cannot show "
                    "scheduler starvation, a closer that never returns, or a panic inside a closer goroutine. The tie to the code is the "
                    "regenerated skeleton (C14_skeleton) plus real App.Close runs with 0-62 closers, delays 0-30 ms, random error subsets, "
@@ -21,7 +27,10 @@ PROP = dict(
                    "the App and created before it (the App collects a closer that is still in creation), and closers whose type prints like "
                    "the type of another component (reflect.Type.String() is not an identity; the harness process runs many Apps), and closers whose "
                    "component names differ only in letter case (self-chosen names and type names; a name is compared exactly). Which "
-                   "components reach App.CloserComponents is decided by the container's wiring (C06/C08 model it); here it is tied by the real runs only.",
+                   "components reach App.CloserComponents is decided by the container's wiring (C06/C08 model it); here it is tied by the real runs only - "
+                   "eighth round: also for starts through ioc.Register + ioc.Run with a registry of the call's own (a fresh child process per history) "
+                   "and for closers that are pointers to named integers / slices / strings / maps or named channels (the option order of run.go "
+                   "and the unguarded GetMetaOrRegister of the tag scan are modelled by hand, not regenerated).",
         subs=[dict(sub="close", driver="conc", n_quick=150, n_thorough=1000)],
         thorough_seeds=3,
         rule="close <n> <errmask> <seed>: n uniform in 0..16; error subset empty (25%), everyone (25%) or random (50%); each closer "
@@ -47,7 +56,18 @@ PROP = dict(
              "themselves orders / Orders / ORDERS / oRDERS; kind t: closers of the types pool / Pool / POOL / pOOL of the package internal/kase, "
              "named by the container after their types; kind m: the type-named closer kase.Hub and closers naming themselves ...kase/hub, "
              ".../kase/HUB, .../kase/hUB - which spellings take part and where they stand among the other components drawn from the seed, "
-             "registered in the drawn order or in the reverse order; same oracle",
+             "registered in the drawn order or in the reverse order; same oracle; eighth round, appended and present in the corpus: n/8 cases "
+             "`closek <n> <errmask> <kinds> <seed>`: 1-12 (one in eight: 13-32) closers, closer i of the Go kind kinds[i]: s pointer to struct (2 in 5), "
+             "i pointer to a named integer, l pointer to a named slice, c named channel, t pointer to a named string, m pointer to a named map "
+             "(self-named), I / L / C the first three named by the container after their type (each with probability 1/3, at most once); such "
+             "values carry no fields - delay, error flag and counters live in a per-start recorder keyed by the value; components of map / func "
+             "kind registered by value and integers / arrays / structs registered by value panic on the unchanged library and are not generated; "
+             "n/10 cases `closep <regs> <opts> <errmask> <seed>`, EACH IN A FRESH CHILD PROCESS (ioc.Register appends to a package-level slice that "
+             "is never cleared): 1-3 (one in eight: no) ioc.Register calls with 1-4 (one in six: 5-8) closers each, then one "
+             "ioc.Run(SetConfigLoader(), opts...) whose options are, in three of four cases, app.SetRegistry(support.NewRegistry()) (one in six: "
+             "twice) followed by 0-2 app.SetComponents options with 1-4 further closers each (a SetRegistry AFTER a SetComponents of the same call "
+             "is not generated: it discards by the meaning of the option order); same oracle: every closer handed to ioc.Register or to a "
+             "SetComponents option is invoked once and has returned when Close returns",
         trusted_base=COMMON_TB + ["the reading of Facts.closeSkel into guards (Ioc.Conc.closeShape) and the go/ast skeleton extractor "
                                   "(harness/cmd/facts: calls named Add/Done/Wait/Close, go statements, loops, branches)",
                                   "sync.WaitGroup and the Go scheduler as modelled (atomic counter; every interleaving of atomic steps)"],
